@@ -20,7 +20,7 @@ import (
 
 func init() {
 	Register(&Prop{
-		ID: "C14", Bubble: true, Run: runC14, QuickRuns: 2500,
+		ID: "C14", Bubble: true, Run: runC14, QuickRuns: 5000,
 		ExpectedProbes: []string{"recv_send_overlapped", "unary_calls_overlapped", "real_grpc_run", "real_unary_end_to_end", "real_stream_end_to_end", "real_client_refusal", "real_server_refusal", "real_stream_refusal", "real_unary_ctx_fault_hit", "real_stream_ctx_fault_hit", "nested_interceptors", "nested_inner_refusal"},
 		Rule: "one run = one interceptor kind (unary server, unary client, server stream wrapper) with a seeded option combination (limiter given or default, each classifier given or default, custom limit-exceeded code and response) driven through a seeded sequence of calls / RecvMsg / SendMsg operations under a fault plan (limiter refuses call k, handler / invoker / stream errors such as io.EOF, context.Canceled and status errors at seeded positions, classifier answers among success / ignore / dropped); a quarter of the stream runs put RecvMsg and SendMsg of one stream on two tasks over real limit-1 limiters under a seeded schedule; " +
 			"oracle from the event log: Acquire on the right limiter precedes the wrapped call, wrapped call iff granted, exactly one listener method of the classified kind, result and error returned unchanged, refusal => no wrapped call, no listener call, status code and response of the limit-exceeded classifier; " +
